@@ -21,4 +21,6 @@ INVARIANT MHAntisymmetric
 INVARIANT MHDetailedBalance
 INVARIANT MHStationary
 INVARIANT MHOldArgsDiffers
+INVARIANT MHArgsAntisymmetric
+INVARIANT MHVecLaws
 CHECK_DEADLOCK FALSE
